@@ -38,6 +38,7 @@ def check(run):
     run.guard("C20.3.if-unless-exclusive", cfg, lambda: rule_exclusive(run, F, cfg))
     run.guard("C20.4.ordering", cfg, lambda: rule_order(run, F, cfg))
     run.guard("C20.6.escaping", cfg, lambda: rule_escape(run, F, cfg))
+    run.guard("C20.6.escaping", cfg + "/sinks", lambda: rule_escape_sinks(run, F, cfg))
 
 
 def rule_writers(run, F, cfg):
@@ -237,3 +238,26 @@ def rule_escape(run, F, cfg):
     run.ob("C20.6.escaping", "rule-text-escaped", not bad and n >= 2,
            f"every piece of rule text (hostname / pattern) formatted into a url-filter ({n} sites) went through "
            f"Regex::replace_all (SPECIAL_CHARS escaping); unescaped at: {bad[:3]}", config=cfg)
+
+
+def _raw_text_sinks(F, f):
+    out = []
+    for b, t in f.calls():
+        for a in t["args"]:
+            o = f.origins_operand(a)
+            if any(re.search(r"arg:v\.(hostname|filter)", x) for x in o):
+                out.append((b, strip_generics(t["callee"])))
+    return out
+
+
+def rule_escape_sinks(run, F, cfg):
+    f = F.fn(NET)
+    allowed = (r"^regex::Regex::replace_all$", r"Deref>::deref$", r"::as_str$", r"::as_ref$", r"::is_ascii$", r"::len$",
+               r"::is_empty$", r"Clone>::clone$", r"::string_view$", r"::iter$")
+    sinks = _raw_text_sinks(F, f)
+    bad = [(f.loc(b), c) for b, c in sinks if not any(re.search(a, c) for a in allowed)]
+    run.ob("C20.6.escaping", "raw-rule-text-sinks", not bad and len(sinks) >= 4,
+           f"the raw hostname / pattern text of the rule is handed only to Regex::replace_all (escaping) or to "
+           f"views of itself ({len(sinks)} uses); other consumers: {bad[:3]}", site=f.loc(0), config=cfg,
+           detail="rule text that reaches a url-filter without SPECIAL_CHARS escaping can contain $ | { [ ( etc. "
+                  "and produce a pattern outside Safari's regex subset")
